@@ -1,2 +1,471 @@
 import FpgoVerif.Model.C09
-/-! Property theorems for C09 (none yet). -/
+import FpgoVerif.Proofs.C09Prog
+import FpgoVerif.Gen.Skeletons
+import FpgoVerif.Gen.PoolGuards
+/-! Property theorems for C09 — WorkerPool: an accepted job runs exactly once, ≤ workerSizeMaximum jobs run
+    concurrently, panics are isolated, full / timeout / closed are reported as such and a rejected job never
+    runs.  All theorems are about `step` / `Reach` of `Model/C09Sys.lean`, the transition system the driver
+    executes; they hold for every configuration, any number of submitters and workers, every interleaving
+    and every timer behaviour (timers are nondeterministic steps).
+
+    Reading guide: `s.started.count j` = how often job `j` was invoked (`runs j`); `wsum f s.workers` = sum of
+    the per-worker weight `f` (`execW` = is executing a job, `busyW` = counted in workerBusy, `alive` =
+    counted in workerCount, `gotJ j` / `runJ j` / `panJV (j,v)` = holds / runs / has panicked in job j). -/
+namespace FpgoVerif.C09
+
+/-! ## exactly once -/
+
+/-- C09_once: in every reachable state, for every job `j`:
+    (1) it was invoked at most once; (2) it is accepted at most once (one successful Offer per call);
+    (3) conservation as multisets: accepted = queued ⊎ dropped-by-Close ⊎ received-not-yet-started ⊎ started,
+    and started = executing ⊎ finished — so while the pool is open (nothing dropped) an accepted job is
+    queued, held by a worker, running or done, never lost and never duplicated;
+    (4) a job whose call returned an error was never accepted and never invoked. -/
+theorem C09_once (c : Cfg) (s : St) (h : Reach c s) (j : Nat) :
+    s.started.count j ≤ 1 ∧ s.accepted.count j ≤ 1 ∧
+    s.accepted.count j = s.queue.count j + s.dropped.count j + wsum (gotJ j) s.workers + s.started.count j ∧
+    s.started.count j = wsum (runJ j) s.workers + s.finished.count j ∧
+    (j ∈ s.rejected → s.accepted.count j = 0 ∧ s.started.count j = 0) := by
+  have hj := reach_invJ h
+  have hs := reach_invS h
+  have h1 := hj.acc j
+  have h2 := hj.sta j
+  have h3 := hs.acc j
+  have h4 := accOf_le_one s.subs j
+  refine ⟨by omega, by omega, h1, h2, ?_⟩
+  intro hr
+  obtain ⟨sb, hsb, hrej⟩ := hs.rej j hr
+  have : accOf s.subs j = 0 := by
+    unfold accOf; rw [hsb]
+    cases hpc : sb.pc <;> simp [hpc, isAcc, isRej] at hrej ⊢
+    case fin r => cases r <;> simp at hrej ⊢
+  omega
+
+/-- non-vacuity: a run in which job 0 is accepted, taken, executed and finished, and job 1 is rejected (queue
+    of total capacity 1 full) -/
+example : ∃ s, Reach ⟨1, 1, 1, 1, 0, true, true⟩ s ∧ s.finished = [0] ∧ s.rejected = [2] ∧ s.accepted = [1, 0] :=
+  ⟨_, reach_runActs (s := init) [.submit false, .sCheck 0, .sOffer 0 false, .sToken 0, .spWake, .spCheck, .spCnt1,
+      .spCnt2 false, .spRead, .spGen, .wCheck 0, .wRecv 0, .wStart 0, .submit false, .sCheck 1, .sOffer 1 false,
+      .sToken 1, .submit false, .sCheck 2, .sOffer 2 true, .sToken 2, .wFinish 0, .wBusyDec 0] Reach.init rfl,
+   by decide, by decide, by decide⟩
+
+/-! ## at most workerSizeMaximum jobs executing -/
+
+/-- C09_cap: #executing ≤ workerBusy ≤ workerCount ≤ workerSizeMaximum at every instant, and the two counters
+    are exactly the number of workers that have not given up their slot / that are inside a job.  In
+    particular the jam rule (`expectedWorkerCount = workerCount + 1`) cannot push workerCount above the
+    maximum: generateWorkerWithMaximum re-checks `workerCount >= workerSizeMaximum` under the lock. -/
+theorem C09_cap (c : Cfg) (s : St) (h : Reach c s) :
+    wsum execW s.workers ≤ s.busy ∧ s.busy ≤ s.count ∧ s.count ≤ c.max ∧
+    s.count = wsum alive s.workers ∧ s.busy = wsum busyW s.workers := by
+  have hw := reach_invW h
+  refine ⟨?_, ?_, hw.cap, hw.cnt, hw.bsy⟩
+  · rw [hw.bsy]; exact wsum_le _ _ execW_le_busyW _
+  · rw [hw.bsy, hw.cnt]; exact wsum_le _ _ busyW_le_alive _
+
+/-- non-vacuity: max = 1, jam rule fired (target 2) with the only worker busy: still one worker -/
+example : ∃ s, Reach ⟨1, 1, 1, 4, 4, true, true⟩ s ∧ s.count = 1 ∧ s.busy = 1 ∧ s.sp = .sleep :=
+  ⟨_, reach_runActs (s := init) [.submit false, .sCheck 0, .sOffer 0 false, .sToken 0, .spWake, .spCheck, .spCnt1,
+      .spCnt2 false, .spRead, .spGen, .wCheck 0, .wRecv 0, .wStart 0, .spSleep, .submit false, .sCheck 1,
+      .sOffer 1 false, .sToken 1, .spWake, .spCheck, .spCnt1, .spCnt2 true, .spRead, .spGen] Reach.init rfl,
+   by decide, by decide, by decide⟩
+
+/-! ## panics are isolated -/
+
+/-- C09_panic (state invariant): every panic raised by a job is either still on its way to the handler (the
+    worker is between `recover` and the handler call) or has been reported exactly once with the job's own
+    panic value; a job panics at most as often as it finishes, hence (C09_once) at most once. -/
+theorem C09_panic (c : Cfg) (s : St) (h : Reach c s) :
+    (∀ jv, s.panicLog.count jv = wsum (panJV jv) s.workers + s.handlerLog.count jv) ∧
+    (∀ j, (s.panicLog.map Prod.fst).count j ≤ s.finished.count j ∧ s.finished.count j ≤ 1) := by
+  have hp := reach_invP h
+  refine ⟨hp.han, fun j => ⟨hp.pan j, ?_⟩⟩
+  have := C09_once c s h j
+  omega
+
+/-- C09_panic_exit (the exit path, step by step): when the job run by worker `w` panics with value `v`, the
+    four steps panic / handler / deferred bookkeeping / token are enabled one after the other, and together
+    they add exactly one handler call `(j, v)`, give back exactly this worker's slot in workerCount and
+    workerBusy, post the spawn token (fix 347608c), and change nothing else: no job counter (`started`),
+    not the queue, not the accepted set, not the closed flag, no other worker. -/
+theorem C09_panic_exit (c : Cfg) (s : St) (w j v : Nat) (hw : s.workers[w]? = some (.run j)) :
+    ∃ t, runActs c s [.wPanic w v, .wHandler w, .wExitDec w, .wExitTok w] = some t ∧
+      t.handlerLog = (j, v) :: s.handlerLog ∧ t.panicLog = (j, v) :: s.panicLog ∧
+      t.count = s.count - 1 ∧ t.busy = s.busy - 1 ∧ t.token = true ∧
+      t.workers = s.workers.set w .gone ∧
+      t.started = s.started ∧ t.finished = j :: s.finished ∧ t.queue = s.queue ∧ t.accepted = s.accepted ∧
+      t.rejected = s.rejected ∧ t.closed = s.closed ∧ t.subs = s.subs ∧ t.sp = s.sp := by
+  have hlt := lt_of_getElem? hw
+  have g : ∀ (l : List WPc) (x : WPc), w < l.length → (l.set w x)[w]? = some x := fun l x h => by simp [h]
+  simp only [runActs, step, stepW, hw, setW]
+  rw [g _ _ hlt]
+  simp only []
+  rw [g _ _ (by simpa using hlt)]
+  simp only []
+  rw [g _ _ (by simpa using hlt)]
+  simp
+
+/-- non-vacuity for C09_panic / C09_panic_exit: standby = max = 1, job 0 panics with value 7 while job 1 is
+    queued: afterwards the handler log is [(0,7)], the token is pending and job 1 is still queued -/
+example : ∃ s, Reach ⟨1, 1, 1, 2, 0, true, true⟩ s ∧ s.handlerLog = [(0, 7)] ∧ s.token = true ∧ s.queue = [1] ∧
+    s.count = 0 ∧ s.busy = 0 :=
+  ⟨_, reach_runActs (s := init) [.submit false, .sCheck 0, .sOffer 0 false, .sToken 0, .spWake, .spCheck, .spCnt1,
+      .spCnt2 false, .spRead, .spGen, .wCheck 0, .wRecv 0, .wStart 0, .spSleep, .submit false, .sCheck 1,
+      .sOffer 1 false, .sToken 1, .spWake, .spCheck, .spCnt1, .spCnt2 false, .spRead, .spSleep,
+      .wPanic 0 7, .wHandler 0, .wExitDec 0, .wExitTok 0] Reach.init rfl,
+   by decide, by decide, by decide, by decide, by decide⟩
+
+/-! ## error reporting -/
+
+/-- C09_errors: for every finished call `i` in every reachable state:
+    nil ⇒ its job was accepted (exactly once); any error ⇒ the job was never accepted, hence never runs;
+    ErrWorkerPoolJobQueueIsFull is the answer of a plain Schedule only; ErrWorkerPoolScheduleTimeout is the
+    answer of a ScheduleWithTimeout only and only after its deadline event. -/
+theorem C09_errors (c : Cfg) (s : St) (h : Reach c s) (i : Nat) (sb : Sub) (hsb : s.subs[i]? = some sb) :
+    (sb.pc = .fin .ok → s.accepted.count i = 1) ∧
+    (∀ r, sb.pc = .fin r → r ≠ .ok → s.accepted.count i = 0 ∧ s.started.count i = 0) ∧
+    (sb.pc = .fin .full → sb.timed = false) ∧
+    (sb.pc = .fin .timeout → sb.timed = true ∧ sb.dl = true) := by
+  have hs := reach_invS h
+  have ha := hs.acc i
+  have ho := C09_once c s h i
+  unfold accOf at ha; rw [hsb] at ha
+  refine ⟨?_, ?_, hs.ful i sb hsb, fun hp => ⟨hs.tim i sb hsb (Or.inr (Or.inr hp)), hs.tmo i sb hsb hp⟩⟩
+  · intro hp; simp [hp, isAcc] at ha; exact ha
+  · intro r hp hr
+    have : s.accepted.count i = 0 := by
+      cases r <;> simp [hp, isAcc] at ha hr ⊢ <;> exact ha
+    omega
+
+/-- C09_errors, the three answers as steps: (closed) a Schedule that reads the closed flag after Close set it
+    returns ErrWorkerPoolIsClosed without touching the queue; (full) the Full answer of the queue leaves
+    queue and accepted set unchanged and becomes ErrWorkerPoolJobQueueIsFull for a plain Schedule;
+    (timeout) the deadline test returns ErrWorkerPoolScheduleTimeout exactly when the deadline event has
+    happened, otherwise the call retries. -/
+theorem C09_errors_steps (c : Cfg) (s t : St) (i : Nat) (sb : Sub) (hsb : s.subs[i]? = some sb) :
+    (sb.pc = .check → s.closed = true → step c s (.sCheck i) = some t →
+        t.subs[i]? = some { sb with pc := .fin .poolClosed } ∧ t.queue = s.queue ∧ t.accepted = s.accepted ∧
+        t.rejected = i :: s.rejected) ∧
+    (sb.pc = .offer → step c s (.sOffer i true) = some t → s.qclosed = false →
+        t.subs[i]? = some { sb with pc := .token .full } ∧ t.queue = s.queue ∧ t.accepted = s.accepted ∧
+        mayFull c s.queue.length = true) ∧
+    (sb.pc = .token .full → sb.timed = false → step c s (.sToken i) = some t →
+        t.subs[i]? = some { sb with pc := .fin .full } ∧ t.rejected = i :: s.rejected ∧ t.token = true) ∧
+    (sb.pc = .dcheck → step c s (.sDeadline i) = some t →
+        (sb.dl = true → t.subs[i]? = some { sb with pc := .fin .timeout } ∧ t.rejected = i :: s.rejected) ∧
+        (sb.dl = false → t.subs[i]? = some { sb with pc := .lcheck } ∧ t.rejected = s.rejected)) := by
+  have hlt := lt_of_getElem? hsb
+  refine ⟨?_, ?_, ?_, ?_⟩
+  · intro hp hc hst
+    simp [step, stepSub, hsb, hp, hc, setS] at hst; subst hst
+    simp [hlt]
+  · intro hp hst hq
+    simp [step, stepSub, hsb, hp, hq, setS] at hst
+    obtain ⟨hm, hst⟩ := hst; subst hst
+    simp [hlt, hm]
+  · intro hp ht hst
+    simp [step, stepSub, hsb, hp, ht, setS, afterSchedule] at hst; subst hst
+    simp [hlt, ht]
+  · intro hp hst
+    refine ⟨?_, ?_⟩
+    · intro hd
+      simp [step, stepSub, hsb, hp, hd, setS] at hst; subst hst
+      simp [hlt, hd]
+    · intro hd
+      simp [step, stepSub, hsb, hp, hd, setS] at hst; subst hst
+      simp [hlt, hd]
+
+/-- the closed flag is never reset: once Close has set it, every later Schedule is answered as in
+    `C09_errors_steps` -/
+theorem C09_closed_stable (c : Cfg) (s t : St) (a : Act) (h : step c s a = some t) (hc : s.closed = true) :
+    t.closed = true := by
+  rcases step_closed h with h1 | h1
+  · rw [h1]; exact hc
+  · exact h1
+
+/-- non-vacuity: queue of capacity 1+0 full ⇒ Schedule answers full; a ScheduleWithTimeout retries and times out
+    after its deadline; after Close a Schedule answers poolClosed -/
+example : ∃ s, Reach ⟨1, 1, 1, 1, 0, true, true⟩ s ∧
+    (s.subs.map (·.pc)) = [.fin .ok, .fin .full, .fin .timeout, .fin .poolClosed] ∧ s.rejected = [3, 2, 1] :=
+  ⟨_, reach_runActs (s := init) [.submit false, .sCheck 0, .sOffer 0 false, .sToken 0,
+      .submit false, .sCheck 1, .sOffer 1 true, .sToken 1,
+      .submit true, .sCheck 2, .sOffer 2 true, .sToken 2, .sLoopCheck 2, .sCheck 2, .sOffer 2 true, .sToken 2,
+      .sDeadline 2, .sLoopCheck 2, .deadline 2, .sCheck 2, .sOffer 2 true, .sToken 2, .sDeadline 2,
+      .closeFlag, .submit false, .sCheck 3] Reach.init rfl,
+   by decide, by decide⟩
+
+/-! ## progress -/
+
+/-- C09_progress (invariant; repaired expiry, workerSizeStandBy ≥ 1, workerSizeMaximum ≥ 1): whenever the pool
+    is open and a job is queued, at least one of the following holds —
+    a worker is in its loop (it will reach the select and take a job) or is dying on a panic and will post
+    the spawn token; the spawn token is pending; a Schedule call is about to post it; the spawn loop is
+    awake with a positive target and will call generateWorkerWithMaximum (which spawns unless a worker
+    exists).  "Eventually runs" is this invariant plus fairness of the Go scheduler, termination of the
+    jobs ahead in the queue and the queue's own progress (C07) — stated here, not proved. -/
+theorem C09_progress (c : Cfg) (hs : 1 ≤ c.standby) (hm : 1 ≤ c.max) (hx : c.atomicExpiry = true)
+    (s : St) (h : Reach c s) (ho : s.closed = false) (hq : s.queue ≠ []) : Good s :=
+  (reach_invG hs hm hx h).good ho hq
+
+/-- the enabled steps behind the disjuncts of `Good`: an idle worker takes the head of a non-empty queue; the
+    waiting spawn loop takes a pending token; generateWorkerWithMaximum(e) with no worker alive and
+    e, max ≥ 1 starts one -/
+theorem C09_progress_steps (c : Cfg) (s : St) :
+    (∀ w j rest, s.workers[w]? = some .sel → s.queue = j :: rest →
+        ∃ t, step c s (.wRecv w) = some t ∧ t.workers[w]? = some (.got j) ∧ t.queue = rest) ∧
+    (s.sp = .wait → s.token = true → ∃ t, step c s .spWake = some t ∧ t.sp = .awake) ∧
+    (∀ i e, s.sp = .loop i e → i < e → s.count = 0 → 1 ≤ c.max →
+        ∃ t, step c s .spGen = some t ∧ t.count = 1 ∧ t.workers = s.workers ++ [.top]) := by
+  refine ⟨?_, ?_, ?_⟩
+  · intro w j rest hw hq
+    have hlt := lt_of_getElem? hw
+    simp only [step, stepW, hw, hq, setW]
+    exact ⟨_, rfl, by simp [hlt], rfl⟩
+  · intro h1 h2; simp [step, stepPool, h1, h2]
+  · intro i e h1 h2 h3 h4
+    have : ¬ (e = 0 ∨ c.max = 0) := by omega
+    simp [step, stepPool, h1, h2, genWorker, h3, this]
+
+/-- The mechanism before `proposed-fix-expiry-race.patch` (decision under RLock, decrement later in the deferred
+    exit; `atomicExpiry = false`) does NOT satisfy the progress invariant, standby = 1 notwithstanding: two
+    idle workers (max 2), worker 0 decides to expire (count 2 > 1) and is delayed; worker 1 expires and
+    leaves (count 1); job 2 is accepted, the spawn loop handles its token while worker 0 is still counted
+    (1 ≥ target 1: no spawn) and goes back to sleep; worker 0 leaves (count 0).  Open pool, queued job,
+    no worker, no token, spawn loop waiting: the job is stranded until somebody schedules again.
+    (Reproduced on the real code by the directed case `expiry-race` of the harness.) -/
+theorem C09_progress_refutes_unfixed :
+    ∃ s, Reach ⟨2, 1, 1, 2, 0, true, false⟩ s ∧ s.closed = false ∧ s.queue = [0] ∧ s.count = 0 ∧ ¬ Good s :=
+  ⟨_, reach_runActs (s := init) [.gen 2, .gen 2, .wCheck 0, .wCheck 1, .wExpire 0, .wExpire 1, .wExitDec 1,
+      .submit false, .sCheck 0, .sOffer 0 false, .sToken 0, .spWake, .spCheck, .spCnt1, .spCnt2 false, .spRead,
+      .spSleep, .wExitDec 0] Reach.init rfl,
+   by decide, by decide, by decide, by decide⟩
+
+/-- non-vacuity of C09_progress: the same schedule on the repaired mechanism — worker 0 retires, worker 1 stays
+    (count 1 > standby 1 is false) and the queued job has a worker -/
+example : ∃ s, Reach ⟨2, 1, 1, 2, 0, true, true⟩ s ∧ s.closed = false ∧ s.queue = [0] ∧ s.count = 1 ∧
+    s.workers = [.gone, .top] :=
+  ⟨_, reach_runActs (s := init) [.gen 2, .gen 2, .wCheck 0, .wCheck 1, .wExpire 0, .wExpire 1,
+      .submit false, .sCheck 0, .sOffer 0 false, .sToken 0, .spWake, .spCheck, .spCnt1, .spCnt2 false, .spRead,
+      .spSleep] Reach.init rfl,
+   by decide, by decide, by decide, by decide⟩
+
+/-! ## closing theorems over the regenerated facts (Gen/Skeletons.lean, Gen/PoolGuards.lean)
+
+    The transition system above assumes, per method, the protocol shape (skeleton) and the decisions
+    (normalised statement listing) written out here; the kernel checks on every run that the code still has
+    exactly these. -/
+
+theorem C09_skel_Schedule : Gen.skeletonOf "worker.DefaultWorkerPool.Schedule" = some
+    "if[call(IsClosed)]{return} defer{call(spawnWorkerCh.Offer)} call(jobQueue.Offer) if[]{return} return" := by decide +kernel
+
+theorem C09_skel_ScheduleWithTimeout : Gen.skeletonOf "worker.DefaultWorkerPool.ScheduleWithTimeout" = some
+    "call(Schedule) if[]{return} call(Now().Add) for[]{if[call(IsClosed)]{return} call(Schedule) if[]{return} if[call(Now().After)]{return} call(Sleep)} return" := by decide +kernel
+
+theorem C09_skel_trySpawn : Gen.skeletonOf "worker.DefaultWorkerPool.trySpawn" = some
+    "call(lock.RLock) if[]{call(jobQueue.Count) if[call(jobQueue.Count)]{}} if[get(workerBusy) get(workerCount) get(workerCount)]{get(workerCount)} call(lock.RUnlock) if[get(workerCount)]{get(workerCount) for[]{call(generateWorkerWithMaximum)}}" := by decide +kernel
+
+theorem C09_skel_generateWorkerWithMaximum : Gen.skeletonOf "worker.DefaultWorkerPool.generateWorkerWithMaximum" = some
+    "call(lock.Lock) defer{call(lock.Unlock)} if[get(workerCount) get(workerCount)]{return} get(workerCount) set(workerCount) go{defer{call(recover) if[]{if[]{callfn(handler)}} call(lock.Lock) if[]{get(workerCount) set(workerCount)} if[]{get(workerBusy) set(workerBusy)} call(lock.Unlock) if[]{call(spawnWorkerCh.Offer)}} for[]{if[call(IsClosed)]{return} select{call(jobQueue.GetChannel) recv(jobQueue.GetChannel())=>{if[]{call(lock.Lock) get(workerBusy) set(workerBusy) call(lock.Unlock) callfn(job) call(lock.Lock) get(workerBusy) set(workerBusy) call(lock.Unlock)}} | call(After) recv(After())=>{call(lock.Lock) get(workerCount) set(workerCount) if[]{get(workerCount) set(workerCount) call(lock.Unlock) break} call(lock.Unlock)}}}}" := by decide +kernel
+
+theorem C09_skel_spawnLoop : Gen.skeletonOf "worker.DefaultWorkerPool.spawnLoop" = some
+    "defer{call(recover) if[]{call(defaultPanicHandler)}} rangech(spawnWorkerCh){if[call(IsClosed)]{break} call(trySpawn) call(Sleep)}" := by decide +kernel
+
+theorem C09_skel_notifyWorkers : Gen.skeletonOf "worker.DefaultWorkerPool.notifyWorkers" = some
+    "if[get(workerCount) call(jobQueue.Count)]{call(spawnWorkerCh.Offer)}" := by decide +kernel
+
+theorem C09_skel_Close : Gen.skeletonOf "worker.DefaultWorkerPool.Close" = some
+    "if[call(IsClosed)]{return} get(isClosed) call(isClosed.Set) if[]{call(jobQueue.Close)}" := by decide +kernel
+
+theorem C09_skel_IsClosed : Gen.skeletonOf "worker.DefaultWorkerPool.IsClosed" = some
+    "get(isClosed) call(isClosed.Get) return" := by decide +kernel
+
+theorem C09_skel_Invoke : Gen.skeletonOf "worker.DefaultInvokable.Invoke" = some
+    "func{callfn(callee)} call(workerPool.Schedule)" := by decide +kernel
+
+theorem C09_skel_InvokeWithTimeout : Gen.skeletonOf "worker.DefaultInvokable.InvokeWithTimeout" = some
+    "func{callfn(callee)} call(workerPool.ScheduleWithTimeout) return" := by decide +kernel
+
+theorem C09_skel_PreAllocWorkerSize : Gen.skeletonOf "worker.DefaultWorkerPool.PreAllocWorkerSize" = some
+    "get(workerCount) for[]{call(generateWorkerWithMaximum)}" := by decide +kernel
+
+theorem C09_skel_NewDefaultWorkerPool : Gen.skeletonOf "worker.NewDefaultWorkerPool" = some
+    "call(NewChannelQueue) go{call(spawnLoop)} return" := by decide +kernel
+
+theorem C09_guard_Schedule : Gen.poolGuardsOf "Schedule" = some [
+    "if p.IsClosed() {",
+    "return ErrWorkerPoolIsClosed",
+    "}",
+    "defer p.spawnWorkerCh.Offer(1)",
+    "err := p.jobQueue.Offer(fn)",
+    "if err == fpgo.ErrQueueIsFull {",
+    "return ErrWorkerPoolJobQueueIsFull",
+    "}",
+    "return err"] := by decide +kernel
+
+theorem C09_guard_ScheduleWithTimeout : Gen.poolGuardsOf "ScheduleWithTimeout" = some [
+    "err := p.Schedule(fn)",
+    "if err != ErrWorkerPoolJobQueueIsFull {",
+    "return err",
+    "}",
+    "retryInterval := p.scheduleRetryInterval",
+    "if retryInterval > timeout/3 {",
+    "retryInterval = timeout / 3",
+    "}",
+    "deadline := time.Now().Add(timeout)",
+    "for {",
+    "if p.IsClosed() {",
+    "return ErrWorkerPoolIsClosed",
+    "}",
+    "err = p.Schedule(fn)",
+    "if err != ErrWorkerPoolJobQueueIsFull {",
+    "return err",
+    "}",
+    "if time.Now().After(deadline) {",
+    "return ErrWorkerPoolScheduleTimeout",
+    "}",
+    "time.Sleep(retryInterval)",
+    "}",
+    "return err"] := by decide +kernel
+
+theorem C09_guard_trySpawn : Gen.poolGuardsOf "trySpawn" = some [
+    "p.lock.RLock()",
+    "batchSize := p.workerBatchSize",
+    "var expectedWorkerCount int",
+    "if batchSize > 0 {",
+    "expectedWorkerCount = p.jobQueue.Count() / batchSize",
+    "if p.jobQueue.Count()%batchSize > 0 {",
+    "expectedWorkerCount++",
+    "}",
+    "}",
+    "if p.workerSizeStandBy > expectedWorkerCount {",
+    "expectedWorkerCount = p.workerSizeStandBy",
+    "}",
+    "if p.workerSizeMaximum > 0 && expectedWorkerCount > p.workerSizeMaximum {",
+    "expectedWorkerCount = p.workerSizeMaximum",
+    "}",
+    "if time.Now().Sub(p.lastAliveTime) > p.workerJamDuration && p.workerBusy >= p.workerCount && p.workerCount >= expectedWorkerCount {",
+    "expectedWorkerCount = p.workerCount + 1",
+    "}",
+    "p.lock.RUnlock()",
+    "if p.workerCount < expectedWorkerCount {",
+    "for i := p.workerCount; i < expectedWorkerCount; i++ {",
+    "p.generateWorkerWithMaximum(expectedWorkerCount)",
+    "}",
+    "}"] := by decide +kernel
+
+theorem C09_guard_generateWorkerWithMaximum : Gen.poolGuardsOf "generateWorkerWithMaximum" = some [
+    "p.lock.Lock()",
+    "defer p.lock.Unlock()",
+    "if p.workerCount >= maximum || p.workerCount >= p.workerSizeMaximum {",
+    "return",
+    "}",
+    "p.lastAliveTime = time.Now()",
+    "p.workerCount++",
+    "isBusy := false",
+    "isRetired := false",
+    "go func {",
+    "defer func {",
+    "panic := recover()",
+    "if panic != nil {",
+    "if handler := p.panicHandler; handler != nil {",
+    "handler(panic)",
+    "}",
+    "}",
+    "p.lock.Lock()",
+    "if !isRetired {",
+    "p.workerCount--",
+    "}",
+    "if isBusy {",
+    "p.workerBusy--",
+    "}",
+    "p.lock.Unlock()",
+    "if panic != nil {",
+    "p.spawnWorkerCh.Offer(1)",
+    "}",
+    "}()",
+    "loopLabel:",
+    "for {",
+    "p.lastAliveTime = time.Now()",
+    "if p.IsClosed() {",
+    "return",
+    "}",
+    "select {",
+    "case job := <-p.jobQueue.GetChannel():",
+    "if job != nil {",
+    "p.lock.Lock()",
+    "isBusy = true",
+    "p.workerBusy++",
+    "p.lock.Unlock()",
+    "job()",
+    "p.lock.Lock()",
+    "p.workerBusy--",
+    "isBusy = false",
+    "p.lock.Unlock()",
+    "}",
+    "case <-time.After(p.workerExpiryDuration):",
+    "p.lock.Lock()",
+    "workerCount := p.workerCount",
+    "if workerCount > p.workerSizeStandBy || workerCount > p.workerSizeMaximum {",
+    "p.workerCount--",
+    "isRetired = true",
+    "p.lock.Unlock()",
+    "break loopLabel",
+    "}",
+    "p.lock.Unlock()",
+    "}",
+    "}",
+    "}()"] := by decide +kernel
+
+theorem C09_guard_spawnLoop : Gen.poolGuardsOf "spawnLoop" = some [
+    "defer func {",
+    "if panic := recover(); panic != nil {",
+    "defaultPanicHandler(panic)",
+    "}",
+    "}()",
+    "for range p.spawnWorkerCh {",
+    "if p.IsClosed() {",
+    "break",
+    "}",
+    "p.trySpawn()",
+    "time.Sleep(p.spawnWorkerDuration)",
+    "}"] := by decide +kernel
+
+theorem C09_guard_notifyWorkers : Gen.poolGuardsOf "notifyWorkers" = some [
+    "if p.workerCount < p.workerSizeStandBy || p.jobQueue.Count() > 0 {",
+    "p.spawnWorkerCh.Offer(1)",
+    "}"] := by decide +kernel
+
+theorem C09_guard_Close : Gen.poolGuardsOf "Close" = some [
+    "if p.IsClosed() {",
+    "return",
+    "}",
+    "p.isClosed.Set(true)",
+    "if p.isJobQueueClosedWhenClose {",
+    "p.jobQueue.Close()",
+    "}"] := by decide +kernel
+
+theorem C09_guard_IsClosed : Gen.poolGuardsOf "IsClosed" = some [
+    "return p.isClosed.Get()"] := by decide +kernel
+
+theorem C09_guard_Invoke : Gen.poolGuardsOf "Invoke" = some [
+    "callee := p.callee",
+    "p.workerPool.Schedule(func() { callee(val) })"] := by decide +kernel
+
+theorem C09_guard_InvokeWithTimeout : Gen.poolGuardsOf "InvokeWithTimeout" = some [
+    "callee := p.callee",
+    "return p.workerPool.ScheduleWithTimeout(func() { callee(val) }, timeout)"] := by decide +kernel
+
+theorem C09_guard_PreAllocWorkerSize : Gen.poolGuardsOf "PreAllocWorkerSize" = some [
+    "for i := p.workerCount; i < preAllocWorkerSize; i++ {",
+    "p.generateWorkerWithMaximum(preAllocWorkerSize)",
+    "}"] := by decide +kernel
+
+theorem C09_guard_NewDefaultWorkerPool : Gen.poolGuardsOf "NewDefaultWorkerPool" = some [
+    "if settings == nil {",
+    "settings = defaultDefaultWorkerSettings",
+    "}",
+    "workerPool := &DefaultWorkerPool{ jobQueue: jobQueue, spawnWorkerCh: fpgo.NewChannelQueue[int](1), DefaultWorkerPoolSettings: *settings, }",
+    "go workerPool.spawnLoop()",
+    "return workerPool"] := by decide +kernel
+
+end FpgoVerif.C09
